@@ -204,7 +204,7 @@ func slowRequest(addr, body string, pause time.Duration) string {
 	fmt.Fprintf(conn, "POST /prove HTTP/1.1\r\nHost: x\r\nContent-Length: %d\r\n\r\n%s", len(body), body[:half])
 	time.Sleep(pause)
 	fmt.Fprint(conn, body[half:])
-	conn.SetReadDeadline(time.Now().Add(30 * time.Second))
+	conn.SetReadDeadline(time.Now().Add(300 * time.Second))
 	resp, err := http.ReadResponse(bufio.NewReader(conn), nil)
 	if err != nil {
 		return "no response: " + err.Error()
@@ -223,7 +223,7 @@ func main() {
 	slow := flag.Float64("slow", 0, "additionally send one request whose body upload pauses for this many seconds")
 	flag.Parse()
 	g := gen.New(*seed)
-	client := &http.Client{Timeout: 120 * time.Second}
+	client := &http.Client{Timeout: 600 * time.Second}
 	emit := func(line, res string) { fmt.Fprintf(gen.Out, "%s\t=>\t%s\n", line, res) }
 	for _, mode := range strings.Split(*modesFlag, ",") {
 		var ps *prover.ProvingSystem
@@ -241,7 +241,7 @@ func main() {
 		inst := server.Run(cfg, ps)
 		url := "http://" + cfg.ProverAddress + "/prove"
 		murl := "http://" + cfg.MetricsAddress + "/metrics"
-		for i := 0; i < 100; i++ { // wait for the listeners
+		for i := 0; i < 3000; i++ { // wait for the listeners
 			if _, _, e := scrape(client, murl); e == nil {
 				if c, e2 := net.Dial("tcp", cfg.ProverAddress); e2 == nil {
 					c.Close()
@@ -323,7 +323,7 @@ func main() {
 		// quiescence: the deferred gauge decrement may lag behind the client's receipt
 		var totals map[string]int
 		gauge := -1
-		for i := 0; i < 100; i++ {
+		for i := 0; i < 3000; i++ {
 			totals, gauge, _ = scrape(client, murl)
 			if gauge == 0 {
 				sum := 0
